@@ -3,7 +3,8 @@ From Coq Require Import String ZArith List Bool PrimFloat.
 From NSL Require Import Base.Types Base.Syntax Model.PyNum Model.IR Model.VM Model.PyTree Model.Elab Model.Lower Spec.RefSem
      Harness.RunLib Proofs.OpsAgree Proofs.LowerExprProofs Proofs.ElabExprProofs Proofs.ReturnExprProofs Proofs.CallAgreeProofs
      Proofs.ReturnExprExample Harness.FragLib Proofs.LowerStmtProofs Proofs.ElabStmtProofs Proofs.StraightLineProofs Proofs.StraightLineExample
-     Proofs.ForwardProofs Harness.FwdLib Harness.FragLib2 Model.Opt Proofs.FlowLowerProofs Proofs.FlowFuncProofs Harness.FlowLib.
+     Proofs.ForwardProofs Harness.FwdLib Harness.FragLib2 Model.Opt Proofs.FlowLowerProofs Proofs.FlowFuncProofs Harness.FlowLib
+     Proofs.FlowElabProofs Proofs.FlowTableProofs Proofs.FlowSimProofs Proofs.FlowSimExample Harness.FlowLib2.
 From NSLDyn Require Gen_VM Agree_VM Gen_Shapes.
 Import ListNotations.
 
@@ -145,7 +146,7 @@ Proof. exact sl_conclusion. Qed.
     instructions are only changed by patches of their own construct ([upd_layout]); a block's offset is fixed when it is
     created ([boffs]); executions with jumps ([jruns]) are composed from the straight-line executions of the parts and
     the two branch instructions.  [flow_in_fragment] decides the hypotheses and is evaluated by the check on generated
-    functions.  Missing: the source side (elaboration / reference semantics) of conditionals, loops, calls. *)
+    functions.  The source side is (6) below. *)
 Theorem C01_conditional_lowering_partial : forall structs gl (f : tfunc) n l te F,
   tf_body f = l ++ [TRet (Some te)] -> forallb (top_ok n) l = true -> tpure te = true -> lower_func structs gl f = LOk F ->
   forall P argv vs locals' V' A' vs' v,
@@ -153,6 +154,60 @@ Theorem C01_conditional_lowering_partial : forall structs gl (f : tfunc) n l te 
     teval structs gl (map snd (tf_args f)) (fn_consts F) locals' (mkfr V' A') vs' te = Ok v ->
     exists N, forall fuel, N <= fuel -> run fuel P F 0 {| regs := init_regs F; vars := []; fargs := argv |} vs = Done v vs'.
 Proof. exact flow_function_correct. Qed.
+
+(** PARTIAL (6): END TO END for functions with CONDITIONALS.  For every source function whose body is a sequence of
+    declarations of int/float locals, plain or compound assignments to int/float locals, parameters and globals, blocks
+    and if / if-else statements (conditions and right-hand sides pure scalar expressions; blocks and branches contain
+    assignments, blocks and conditionals nested to any depth up to the index n, no declarations inside) followed by
+    [return e]: if the front-end model elaborates it and the lowering model produces F, then at every call with numeric
+    arguments and globals of the declared types, whenever the reference semantics runs the body to an outcome, that
+    outcome is the return of a number v, and the VM model running F from its first instruction returns exactly v, for
+    every sufficient fuel, and ends in a state that agrees with the reference state on every visible name.  Composition of
+    (5) with the source side: elaboration of blocks and conditionals preserves the reference semantics ([src_all]: the
+    frames pushed for a block or a conditional stay empty, so the agreement on visible names survives push and pop; the
+    truth value of the condition is the VM's), the constant table of a function with nested statements holds every
+    literal typed and exact ([flow_function_lits_ok]), and the call agreement.  [flowsrc_in_fragment] decides the
+    static hypotheses and is evaluated by the check on generated functions.  Missing: declarations inside blocks, loops,
+    early returns, calls, aggregates. *)
+Theorem C01_conditional_functions_partial :
+  forall (M : module) (fn : func) (n : nat) (l : list stmt) (e : expr) (tf : tfunc) (F : ifunc),
+    f_body fn = l ++ [SRet (Some e)] -> forallb (stop n) l = true -> spure e = true ->
+    elab_func (genv_of M) (genvl M) fn = EOk tf -> lower_func (m_structs M) (glnames M) tf = LOk F ->
+    forall tl te, tf_body tf = tl ++ [TRet (Some te)] -> length tl = length l ->
+    forallb tok (flat_map (topexprs n) tl ++ [te]) = true ->
+    lits_exact (flat_map tflits (flat_map (topexprs n) tl ++ [te])) -> (forall q, In q (flat_map tflits (flat_map (topexprs n) tl ++ [te])) -> PrimFloat.eqb q q = true) ->
+    Forall (fresh_decl (glnames M) (argnames fn)) l ->
+    forall (P : program) (ws : list rval) (g : RefSem.frame) (vs : vmstate),
+      Forall2 (fun p w => has_ty w (fst p)) (f_args fn) ws ->
+      (forall x, In x (map snd (f_args fn)) -> ~ In x (glnames M)) ->
+      (forall x p, find (fun q => String.eqb (fst q) x) (genvl M) = Some p ->
+         num_ty (snd p) /\ exists w, find (fun q => String.eqb (fst q) x) g = Some (fst p, SV w) /\ has_ty w (snd p) /\ slookup x (globals vs) = Some (v_of w)) ->
+      forall fuel fl st', exec_list M fuel (f_body fn) (call_state fn ws g) = ROk (fl, st') ->
+        exists v vs', fl = OReturn (SV v) /\
+          (exists N, forall fuel', N <= fuel' -> run fuel' P F 0 (call_frame ws (init_regs F)) vs = Done (v_of v) vs') /\
+          exists env1 locals' V' A', Agree (glnames M) (argnames fn) env1 st' locals' V' A' vs'.
+Proof. exact flow_function_simulation. Qed.
+
+Theorem C01_conditional_fragment_test_sound : forall M fn, flowsrc_in_fragment M fn = true ->
+  exists l e tf F tl te,
+    f_body fn = l ++ [SRet (Some e)] /\ forallb (stop flow_depth) l = true /\ spure e = true /\
+    elab_func (genv_of M) (genvl M) fn = EOk tf /\ lower_func (m_structs M) (glnames M) tf = LOk F /\
+    tf_body tf = tl ++ [TRet (Some te)] /\ length tl = length l /\ forallb tok (flat_map (topexprs flow_depth) tl ++ [te]) = true /\
+    (forall q, In q (flat_map tflits (flat_map (topexprs flow_depth) tl ++ [te])) -> PrimFloat.eqb q q = true) /\
+    Forall (fresh_decl (glnames M) (argnames fn)) l /\ (forall x, In x (map snd (f_args fn)) -> ~ In x (glnames M)).
+Proof. exact flowsrc_in_fragment_sound. Qed.
+
+(** non-vacuity of (6): int g; f(int a, float b) -> float
+    { float y = b * 0.5; if (a > 1) { y += a; if (g) { g = g - 1; } } else { a = a + 3; } { y = y - 0.5; } return y + a + g; }
+    at a = 3, b = 2.5, g = 8: both sides give 13.75 and leave g = 7 *)
+Example C01_conditional_instance : forall P,
+  exists v vs', fst (match exec_list fs_M 14 (f_body fs_fn) (call_state fs_fn fs_ws fs_g) with ROk p => p | _ => (ONormal, call_state fs_fn fs_ws fs_g) end) = OReturn (SV v) /\
+                exists n, forall fuel', n <= fuel' -> run fuel' P fs_F 0 (call_frame fs_ws (init_regs fs_F)) fs_vs = Done (v_of v) vs'.
+Proof. exact fs_conclusion. Qed.
+Example C01_conditional_values :
+  flowsrc_in_fragment fs_M fs_fn = true /\
+  run 80 {| p_funcs := [fs_F]; p_globals := ["g"%string] |} fs_F 0 (call_frame fs_ws (init_regs fs_F)) fs_vs = Done (VFloat 13.75%float) {| globals := [("g"%string, VInt 7)]; hp := [] |}.
+Proof. split; vm_compute; reflexivity. Qed.
 
 (** non-vacuity: 7 / 2 and -7 / 2 truncate; mixed arithmetic promotes; % on non-negative operands *)
 Example C01_examples :
@@ -166,4 +221,5 @@ Eval compute in "ASSUMPTIONS C01_selected_arm_is_source_arm_partial"%string. Pri
 Eval compute in "ASSUMPTIONS C01_return_expression_functions_partial"%string. Print Assumptions C01_return_expression_functions_partial.
 Eval compute in "ASSUMPTIONS C01_straight_line_functions_partial"%string. Print Assumptions C01_straight_line_functions_partial.
 Eval compute in "ASSUMPTIONS C01_conditional_lowering_partial"%string. Print Assumptions C01_conditional_lowering_partial.
+Eval compute in "ASSUMPTIONS C01_conditional_functions_partial"%string. Print Assumptions C01_conditional_functions_partial.
 Eval compute in "END"%string.
